@@ -18,7 +18,9 @@
             for an ndarray map and for left_unique=True (defect F-C19c);
      Fixed  after work/C19/fix-F-C19a.diff + fix-F-C19c.diff: the streamable form (all fields,
             field map) calls the maintained streamed generators of Model/Join.v and
-            ordered_map_valid_stream of Model/MapStream.v.
+            ordered_map_valid_stream of Model/MapStream.v (operations.py after work/E7/fix-F-C02f.diff);
+     Fixed0 the same session.py over operations.py BEFORE fix-F-C02f (MapStream's Fixed0 kernels); not
+            exercised by C19 (the maps of the streamable form are non-decreasing, where the two agree).
 
    Keys and numeric payloads are Z; an indexed-string payload is (offsets, bytes).  pandas.merge
    is a Section variable (see Section Pandas).  Proof-free file. *)
@@ -323,6 +325,7 @@ Definition streaming_map_fields (ver:version) (cs:Z) (field_map:list Z) (srcs:li
   : res (list (list Z)) :=
   mapM (fun src => match ver with
                    | Orig => map_stream_old src field_map inv cs
+                   | Fixed0 => ordered_map_valid_stream 0 0 (S (length field_map)) Fixed0 src field_map inv cs
                    | Fixed => ordered_map_valid_stream 0 0 (S (length field_map)) Fixed src field_map inv cs
                    end) srcs.
 
@@ -357,9 +360,9 @@ Definition ordered_merge_left (ver:version) (cs:Z) (L R:list Z) (srcs:list (list
         else
           do _ <- gen_left_map true L R (repeat 0 (length L)) INVALID_INDEX;
           Raise E_ValueError                         (* field_from_parameter('field_map', ndarray result) *)
-      | Fixed =>
+      | Fixed0 | Fixed =>
         do '(_, m) <- streamed (mkvar (if lu then KBU else KRU) true) L R INVALID_INDEX cs;
-        do l <- streaming_map_fields Fixed cs m srcs INVALID_INDEX;
+        do l <- streaming_map_fields ver cs m srcs INVALID_INDEX;
         Ok (mk_oml None (Some l) (Some m))
       end
     else
